@@ -359,6 +359,38 @@ FAMILIES.update({
                             invariants=tlc.GEN_INVARIANTS, simulate=dict(num=300, depth=9)) for t in ('quick', 'thorough')},
 })
 
+# Cross-format chains (x-<a>-<b>-*): models inside BOTH fragments; the harness writes and reads them
+# with format a, and the model reader a built is then the source of the write/read history of format b.
+RT_OPS = {'uvl': ALL_OPS_NOT_XOR, 'json': LOGIC_BIN, 'afm': ALL_OPS_NOT_XOR, 'fide': ALL_OPS_NOT_XOR, 'glencoe': LOGIC_BIN}
+RT_ABS = {'uvl', 'json', 'fide'}
+RT_PLAINATTR = {'uvl', 'json'}
+ATTR_VALS_CHAIN = [{'val': v, 'dom': '', 'nul': 'n'} for v in ['n', 'b:true', 'i:5', 'd:1.5', 's:txt', 's:two words', 'l:[i:1,s:x]']]
+
+
+def chain_families(a, b):
+    ops = RT_OPS[a] & RT_OPS[b]
+    axes = {'ctc'} | ({'abs'} if {a, b} <= RT_ABS else set()) | ({'attr'} if {a, b} <= RT_PLAINATTR else set())
+    star = {a, b} <= {'uvl', 'json'}
+    walk = dict(N=5, MaxKids=3, MinHi=0, AllowStar=star, Axes=axes, AttrNames=['a1', 'a2'],
+                AttrVals=ATTR_VALS_CHAIN if 'attr' in axes else set(), MaxCtc=2, CtcDepth=1, CtcBinOps=ops,
+                CtcMinFeatures=3, CtcGrow=1, Fmt=b, Fmt2=a)
+    return {
+        'x-%s-%s-Tree' % (a, b): {
+            'quick':    dict(consts=dict(N=4, MaxKids=3, MinHi=0, AllowStar=star, Fmt=b, Fmt2=a), invariants=tlc.GEN_INVARIANTS, cap=250),
+            'thorough': dict(consts=dict(N=5, MaxKids=3, MinHi=0, AllowStar=star, Fmt=b, Fmt2=a), invariants=tlc.GEN_INVARIANTS, cap=2500),
+        },
+        'x-%s-%s-Walk' % (a, b): {
+            'quick':    dict(consts=walk, invariants=tlc.GEN_INVARIANTS, simulate=dict(num=120, depth=12), cap=350),
+            'thorough': dict(consts=walk, invariants=tlc.GEN_INVARIANTS, simulate=dict(num=1500, depth=14), cap=3000),
+        },
+    }
+
+
+for _a in RT_OPS:
+    for _b in RT_OPS:
+        if _a != _b:
+            FAMILIES.update(chain_families(_a, _b))
+
 _cache = {}
 
 
